@@ -94,6 +94,8 @@ def replay_tree(case):
     chk("_simplify idempotent", _try(lambda: alpha((lambda r: r._simplify() if isinstance(r, Structured) else r)(s._simplify()))), case["simp"])
     chk("_to_dict", _try(lambda: alpha_dict(s._to_dict())), tree)
     chk("_update", _try(lambda: alpha(s._update(root=([78],), b=[77]))), case["upd"])
+    chk("_update with an empty list as the new root", _try(lambda: alpha(s._update([]))), case["upd_empty"])
+    chk("_update with an empty tuple as the new root", _try(lambda: alpha(s._update((), a=[]))), case["upd_empty_tuple"])
     chk("_merge(self, self)", _try(lambda: alpha(Structured._merge(s, gamma(tree)))), case["merge_self"])
     other = Structured(a=[91], c=([92],))
     chk("_merge(self, other)", _try(lambda: alpha(Structured._merge(s, other))), case["merge_other"])
